@@ -3,17 +3,90 @@ C13 — the PDA acceptance oracle (pop-relation saturation) is exact in both mod
 -/
 import Pfl.Spec.PDA
 import Pfl.Oracle.PdaAcc
+import Pfl.Proofs.PDAAcc
 namespace Pfl
 namespace PDA
+open Pfl.PDA.Acc
 variable {σ γ : Type} [DecidableEq σ] [DecidableEq γ]
 
 theorem accEmpty_iff (P : PDA σ γ) (w : List String) (fuel : Nat) (b : Bool)
     (h : P.accEmpty w fuel = some b) : b = true ↔ P.AccEmpty w := by
-  sorry
+  unfold accEmpty at h
+  split at h
+  · rename_i s z hs hz
+    obtain ⟨R, hR, rfl⟩ := Option.map_eq_some_iff.mp h
+    obtain ⟨hS, hC⟩ := popSaturate_spec fuel [] R (psound_nil P w) hR
+    simp only [List.any_eq_true, decide_eq_true_eq]
+    constructor
+    · rintro ⟨⟨q0, x0, i0, q', j⟩, hr, h1, h2, h3, h4⟩
+      simp only at h1 h2 h3 h4
+      subst h1 h2 h3 h4
+      have := popsL_steps ((mem_sat_iff hS hC _ _ _ _ _).mp hr) []
+      simp only [List.drop_zero, List.drop_length, List.append_nil] at this
+      exact ⟨_, _, q', hs, hz, this⟩
+    · rintro ⟨s', z', q', hs', hz', hrun⟩
+      rw [hs] at hs'; rw [hz] at hz'
+      cases hs'; cases hz'
+      have := popsL_of_steps (w := w) hrun s 0 [z] q' (Nat.zero_le _) (by simp) rfl
+      exact ⟨_, (mem_sat_iff hS hC _ _ _ _ _).mpr this, rfl, rfl, rfl, rfl⟩
+  · rename_i hn
+    cases h
+    constructor
+    · intro h; cases h
+    · rintro ⟨s, z, q, hs, hz, _⟩
+      exact (hn s z hs hz).elim
 
 theorem accFinal_iff (P : PDA σ γ) (w : List String) (fuel : Nat) (b : Bool)
     (h : P.accFinal w fuel = some b) : b = true ↔ P.AccFinal w := by
-  sorry
+  unfold accFinal at h
+  split at h
+  · rename_i s z hs hz
+    split at h
+    · cases h
+    · rename_i R hR
+      obtain ⟨F, hF, rfl⟩ := Option.map_eq_some_iff.mp h
+      obtain ⟨hS, hC⟩ := popSaturate_spec fuel [] R (psound_nil P w) hR
+      obtain ⟨hFS, hFC⟩ := finSaturate_spec (popChain_sound hS) fuel [] F (fsound_nil P w) hF
+      simp only [Bool.or_eq_true, List.any_eq_true, decide_eq_true_eq]
+      constructor
+      · rintro ((⟨hf, hw⟩ | hmem) | ⟨⟨q0, x0, i0, q', j⟩, hr, h1, h2, h3, h4, h5⟩)
+        · have hw' : w = [] := List.eq_nil_of_length_eq_zero hw
+          subst hw'
+          exact ⟨s, z, s, [z], hs, hz, hf, .refl _⟩
+        · obtain ⟨f, hf, β', hrun⟩ := finFrom_steps (hFS _ hmem) []
+          exact ⟨s, z, f, β', hs, hz, hf, by simpa using hrun⟩
+        · simp only at h1 h2 h3 h4 h5
+          subst h1 h2 h3 h5
+          have := popsL_steps ((mem_sat_iff hS hC _ _ _ _ _).mp hr) []
+          simp only [List.drop_zero, List.drop_length, List.append_nil] at this
+          exact ⟨_, _, q', [], hs, hz, h4, this⟩
+      · rintro ⟨s', z', f, β, hs', hz', hf, hrun⟩
+        rw [hs] at hs'; rw [hz] at hz'
+        cases hs'; cases hz'
+        obtain ⟨pre, post, q', j, hl, hp, hfin⟩ :=
+          finChain_of_steps (w := w) hrun s 0 [z] f β (Nat.zero_le _) (by simp) rfl hf
+        cases pre with
+        | nil =>
+          obtain ⟨rfl, rfl⟩ := popsL_nil_inv hp
+          rcases hfin with ⟨hf', hj⟩ | ⟨x, post', hpost, hx⟩
+          · exact Or.inl (Or.inl ⟨hf', hj.symm⟩)
+          · simp only [List.nil_append] at hl
+            subst hpost
+            cases hl
+            exact Or.inl (Or.inr (finFrom_complete (fun _ _ _ _ _ h => popChain_complete hC h) hFC hx))
+        | cons y pre' =>
+          simp only [List.cons_append, List.cons.injEq] at hl
+          obtain ⟨rfl, hl⟩ := hl
+          obtain ⟨rfl, rfl⟩ := List.append_eq_nil_iff.mp hl.symm
+          rcases hfin with ⟨hf', hj⟩ | ⟨x, post', hpost, _⟩
+          · exact Or.inr ⟨_, (mem_sat_iff hS hC _ _ _ _ _).mpr hp, rfl, rfl, rfl, hf', hj⟩
+          · cases hpost
+  · rename_i hn
+    cases h
+    constructor
+    · intro h; cases h
+    · rintro ⟨s, z, f, β, hs, hz, _⟩
+      exact (hn s z hs hz).elim
 
 end PDA
 end Pfl
